@@ -633,6 +633,9 @@ func (vc *VC) zeroVal(st *State, t types.Type) Val {
 	case TKBool:
 		return scalar(p.False())
 	case TKInt:
+		if isUint256(t) {
+			return scalar(p.Int(0))
+		}
 		if _, ok := t.Underlying().(*types.Array); ok {
 			return scalar(p.App("zeroarr$"+typeKey(t), SInt))
 		}
